@@ -30,12 +30,13 @@ type facts struct {
 	delivered map[uint32]map[delivKey][]*Payload
 	// verdicts of VerifyBlock / VerifyPreBlock by content hash
 	verdict map[Hash]bool
+	policy  map[Hash]bool // payload hash -> last verdict of the application's policy callbacks (VerifyPrepareRequest / VerifyPrepareResponse / VerifyCommit / VerifyPreCommit)
 	anyEarly bool // some (pre)commit reached this node before its proposal at the current height
 	// transactions in the node's possession (pool or supplied) are in n.pool
 }
 
 func newFacts() *facts {
-	return &facts{early: map[Hash]bool{}, proposals: map[hv][]*Payload{}, delivered: map[uint32]map[delivKey][]*Payload{}, verdict: map[Hash]bool{}}
+	return &facts{early: map[Hash]bool{}, proposals: map[hv][]*Payload{}, delivered: map[uint32]map[delivKey][]*Payload{}, verdict: map[Hash]bool{}, policy: map[Hash]bool{}}
 }
 
 func (f *facts) gc(cur uint32) {
